@@ -432,8 +432,139 @@ func runC11(c *evid.Ctx) {
 	c.Extra("max_vfs_calls_per_8_bytes", maxRatio)
 	c.Extra("max_allocated_bytes_in_a_case", maxAlloc)
 	c11Sealed(c, rng, bases)
+	c11UnderOpen(c, rng, bases)
 	c11Decode(c, rng)
 	c11RealFailedOpen(c, rng)
+}
+
+// c11UnderOpen: a segment file is cut short, in the middle of an entry, underneath a WAL
+// that is open and has read everything once (pooled read buffers are warm). Every GetLog
+// must then fail or succeed - and what it returns with a nil error must consist of bytes
+// that are in the file: a returned entry whose encoding occurs nowhere in the damaged
+// directory was made up from something else (stale buffer contents).
+func c11UnderOpen(c *evid.Ctx, rng *rand.Rand, bases []*c11Base) {
+	codec := &wal.BinaryCodec{}
+	for bi, base := range bases {
+		if bi >= 40 && quick(c) {
+			break
+		}
+		disk := base.snap.Image(simfs.Variant{Kill: true})
+		w, err := drv.OpenSim(disk, drv.Cfg{SegSize: base.seg})
+		if err != nil {
+			continue
+		}
+		first, _ := w.FirstIndex()
+		last, _ := w.LastIndex()
+		for i := first; i <= last && last > 0; i++ {
+			var lg raft.Log
+			w.GetLog(i, &lg)
+		}
+		// cut one file inside an entry frame's payload
+		name := base.files[rng.Intn(len(base.files))]
+		b := disk.FileBytes(name)
+		offs := frameOffsets(b)
+		if len(offs) < 2 {
+			drv.CloseWAL(w)
+			continue
+		}
+		o := offs[rng.Intn(len(offs))]
+		cut := o + 8 + 1 + rng.Intn(24)
+		if cut >= len(b) {
+			drv.CloseWAL(w)
+			continue
+		}
+		disk.TruncateInPlace(name, cut)
+		var all [][]byte
+		for _, n := range disk.List() {
+			all = append(all, disk.FileBytes(n))
+		}
+		func() {
+			defer func() {
+				if r := recover(); r != nil {
+					buf := make([]byte, 4000)
+					c.Violation("C11:panic:truncated-under-open-wal:"+panicSite(string(buf[:runtime.Stack(buf, false)])), fmt.Sprintf("GetLog panicked after %s was cut to %d bytes under the open WAL: %v", name, cut, r), map[string]any{"file": name, "cut": cut})
+				}
+			}()
+			for i := first; i <= last && last > 0; i++ {
+				var lg raft.Log
+				if err := w.GetLog(i, &lg); err != nil {
+					c.Count("reads_failing_after_truncation_under_open_wal", 1)
+					continue
+				}
+				var enc bytes.Buffer
+				codec.Encode(&lg, &enc)
+				found := false
+				for _, fb := range all {
+					if bytes.Contains(fb, enc.Bytes()) {
+						found = true
+						break
+					}
+				}
+				c.Count("reads_succeeding_after_truncation_under_open_wal", 1)
+				if !found {
+					c.Violation("C11:returned-bytes-not-in-file", fmt.Sprintf("after %s was cut to %d bytes (inside the entry frame at %d) under the open WAL, GetLog(%d) returned nil error and an entry whose encoding (%d bytes) occurs in no file of the directory", name, cut, o, i, enc.Len()), map[string]any{"file": name, "cut": cut, "index": i})
+					return
+				}
+			}
+		}()
+		c.Count("cases", 1)
+		c.Distinct("case_classes", "truncated-under-open-wal")
+		drv.CloseWAL(w)
+	}
+	// the same with entries of identical shape in one tail segment, read in order: whatever a
+	// pooled buffer still holds from the previous read lines up field by field with the
+	// entry that was cut, so bytes taken from it would decode cleanly
+	for rep := 0; rep < 6; rep++ {
+		disk := simfs.New(simfs.Strict)
+		w, err := drv.OpenSim(disk, drv.Cfg{SegSize: 1 << 16})
+		if err != nil {
+			return
+		}
+		var logs []*raft.Log
+		for i := uint64(1); i <= 12; i++ {
+			logs = append(logs, &raft.Log{Index: i, Term: 3, Type: raft.LogCommand, Data: bytes.Repeat([]byte{byte('a' + i)}, 200), AppendedAt: time.Unix(1700000000+int64(i), 0).UTC()})
+		}
+		if err := w.StoreLogs(logs); err != nil {
+			drv.CloseWAL(w)
+			return
+		}
+		names := disk.List()
+		b := disk.FileBytes(names[0])
+		offs := frameOffsets(b)
+		k := 3 + rng.Intn(7)
+		if len(offs) <= k {
+			drv.CloseWAL(w)
+			continue
+		}
+		cut := offs[k] + 8 + 20 + rng.Intn(150)
+		disk.TruncateInPlace(names[0], cut)
+		fb := disk.FileBytes(names[0])
+		for i := uint64(1); i <= 12; i++ {
+			var lg raft.Log
+			err := func() (err error) {
+				defer func() {
+					if r := recover(); r != nil {
+						err = fmt.Errorf("panic: %v", r)
+						c.Violation("C11:panic:truncated-under-open-wal:uniform", fmt.Sprintf("GetLog(%d) panicked: %v", i, r), nil)
+					}
+				}()
+				return w.GetLog(i, &lg)
+			}()
+			if err != nil {
+				c.Count("reads_failing_after_truncation_under_open_wal", 1)
+				continue
+			}
+			c.Count("reads_succeeding_after_truncation_under_open_wal", 1)
+			var enc bytes.Buffer
+			codec.Encode(&lg, &enc)
+			if !bytes.Contains(fb, enc.Bytes()) {
+				c.Violation("C11:returned-bytes-not-in-file", fmt.Sprintf("after the tail file was cut to %d bytes (inside an entry frame) under the open WAL, GetLog(%d) returned nil error and an entry whose encoding (%d bytes) does not occur in the file", cut, i, enc.Len()), map[string]any{"cut": cut, "index": i})
+				break
+			}
+		}
+		c.Count("cases", 1)
+		drv.CloseWAL(w)
+	}
 }
 
 func panicSite(stack string) string {
